@@ -413,7 +413,8 @@ class Esc:
             if fname in MEASURING:
                 for arg in c.args[:1]:
                     if is_nullable(arg):
-                        emit('TypeError', f'{path}:{line} nullable {ast.unparse(arg)} passed to {fname}()', hs, line)
+                        emit('AttributeError' if fname == 'getattr' else 'TypeError',
+                             f'{path}:{line} nullable {ast.unparse(arg)} passed to {fname}()', hs, line)
             for tq in targets:
                 S.callees.add(tq)
                 T = P.funcs[tq]
